@@ -1,5 +1,6 @@
 import AC.Drv.Proto
 import AC.ProgramX
+import AC.Gen.ProgramFns
 /-! driver handler for C18.
 
 * `c18 calls <calls> <results> <snaps> <final> <chain> <doubles> <adds> <reads> <deps>`:
@@ -105,6 +106,43 @@ def closure18 (p : Array Op) (k : Nat) : Nat :=
   let mk := loop (n + 2) ((Array.replicate (n + 1) false).setIfInBounds k true)
   (List.range (n + 1)).foldl (fun acc j => if mk.getD j false then acc + 2 ^ j else acc) 0
 
+/-! the functions TRANSLATED from program.go (AC/Gen/ProgramFns.lean), run on the same calls and on the
+    implementation's own final program: validates the translator and its primitives against the code -/
+open AC.Gen.Program AC.GoPrim in
+def srcRes18 (n : Int) : Option GoErr → String
+  | none => toString n
+  | some ("negative index %d", [i]) => s!"en{i}"
+  | some ("index %d out of bounds", [i]) => s!"eo{i}"
+  | some (f, _) => s!"e?{f}"
+
+open AC.Gen.Program AC.GoPrim in
+def srcWalk18 (g : List GOp) : List Call → Option (List (String × List GOp))
+  | [] => some []
+  | c :: cs => do
+    let (g', n, e) ← (match c with
+      | .add i j => programAdd g i j
+      | .double i => programDouble g i
+      | .shift i s => programShift g i s)
+    let rest ← srcWalk18 g' cs
+    pure ((srcRes18 n e, g') :: rest)
+
+open AC.GoPrim in
+def showGOps18 (g : List GOp) : String := showList (fun o => s!"{o.I}:{o.J}") g
+
+open AC.Gen.Program AC.GoPrim in
+def srcCmp18 (calls : List Call) (ifinal : List IOp) (rs sn ch db ad rd dp : String) (r : Res) : Res :=
+  let r := match srcWalk18 [] calls with
+    | some w =>
+      let r := cmp "translated-results" (showList (·.1) w) rs r
+      cmp "translated-snapshots" (if w.isEmpty then "_" else ";".intercalate (w.map (showGOps18 ·.2))) sn r
+    | none => cmp "translated-builders" "panic" "no-panic" r
+  let g : List GOp := ifinal.map fun o => ⟨o.1, o.2⟩
+  let r := cmp "translated-evaluate" (showOpt18 showInts (programEvaluate g)) ch r
+  let r := cmp "translated-doubles" (showOpt18 toString (programDoubles g)) db r
+  let r := cmp "translated-adds" (showOpt18 toString (programAdds g)) ad r
+  let r := cmp "translated-readcounts" (showOpt18 showInts (programReadCounts g)) rd r
+  cmp "translated-dependencies" (showOpt18 showInts (programDependencies g)) dp r
+
 def ascB18 (c : Chain) : Bool := (c.zip c.tail).all (fun p => p.1 < p.2)
 
 def handleC18 (f : List String) : Res :=
@@ -123,6 +161,7 @@ def handleC18 (f : List String) : Res :=
       let r := cmp "adds" (toString (count mfin).2) ad r
       let r := cmp "readcounts" (showOpt18 showNats (readCounts mfin)) rd r
       let r := cmp "dependencies" (showOpt18 showNats (dependencies mfin)) dp r
+      let r := srcCmp18 calls ifinal rs sn ch db ad rd dp r
       -- spec on the implementation's own output
       let shape := rl.length == calls.length && snaps.length == calls.length
       let r := specIf "record-shape" shape r
